@@ -327,3 +327,25 @@ Theorem grouping_min_distance :
   (m = UINT64_MAX \/ exists i j, (i < nb)%nat /\ (j < nb)%nat /\ i <> j /\ m = vget v (i * nb + j)).
 Proof. exact min_distance_spec. Qed.
 Print Assumptions grouping_min_distance.
+
+(* TRANSITIVE_CLOSURE: the in-place loops (which read the array they are
+   writing) compute, for every object list, switch set and nb x nb matrix, the
+   functional form: the cell between two distinct non-switch objects a, b gets
+   + min(sum over switches k of v0[k][b], sum over switches k of v0[a][k]) mod 2^64
+   computed on the ORIGINAL matrix; every other cell is unchanged *)
+Theorem transform_transitive_closure :
+  forall (objs : list oref) nb v0, length v0 = (nb * nb)%nat ->
+  let r := closure_i (seq 0 nb) objs nb v0 in
+  length r = (nb * nb)%nat /\
+  forall a b, (a < nb)%nat -> (b < nb)%nat ->
+    cell nb r a b =
+    if negb (a =? b)%nat && negb (is_nvswitch (nth a objs None)) && negb (is_nvswitch (nth b objs None))
+    then closure_cell objs nb v0 a b else cell nb v0 a b.
+Proof. exact closure_spec. Qed.
+Print Assumptions transform_transitive_closure.
+
+Definition o_gpu (g : N) : obj := Obj HWLOC_OBJ_CORE g 0 false.
+Definition o_port (g : N) : obj := Obj HWLOC_OBJ_CORE g 0 true.
+Example transform_transitive_closure_nonvacuous :
+  closure_i (seq 0 3) [Some (o_gpu 1); Some (o_port 2); Some (o_gpu 3)] 3 [0;5;1; 7;0;9; 2;4;0]%N = [0;5;6; 7;0;9; 6;4;0]%N.
+Proof. vm_compute. reflexivity. Qed.
